@@ -1,8 +1,8 @@
 #!/bin/sh
-# usage: tools/sweep.sh <tier> <seed>...   runs every registered check once per seed; prints one line per run
+# usage: [CHECKS="C01 C09"] tools/sweep.sh <tier> <seed>...   runs every registered check (or those in CHECKS) once per seed; prints one line per run
 tier=$1; shift
 for s in "$@"; do
-  for c in C01 C02 C03 C04 C05 C06 C07 C08 C09 C10 C11 C12 C13 C14 C15 C16 C17 C18 C19 C20; do
+  for c in ${CHECKS:-C01 C02 C03 C04 C05 C06 C07 C08 C09 C10 C11 C12 C13 C14 C15 C16 C17 C18 C19 C20}; do
     t0=$(date +%s)
     VERIF_SEED=$s ./check $c $tier > .sweep.$c.$s.out 2> .sweep.$c.$s.err; rc=$?
     t1=$(date +%s)
